@@ -232,7 +232,7 @@ pub fn lexer(input: TokenStream) -> TokenStream {
             visibility,
             attrs,
         );
-        crate::verif::emit(&format!("TOKENS {}", tokens));
+        crate::verif::emit(&format!("TOKENS {}", tokens.to_string().replace('\n', " ")));
         crate::verif::flush(&verif_lexer_name);
         return tokens.into();
     }
